@@ -312,7 +312,8 @@ pub fn initial(dag: Dag, profile: u8, k: u8) -> (MigrationState, Env) {
         txs.push(MigrationTransaction::from_parts(
             tid(i),
             sh.kinds[i],
-            pczt_bytes(0, i),
+            // a row that starts out proved (or later) holds the proven bytes
+            pczt_bytes(if digits[i] >= 2 { 2 } else { 0 }, i),
             sh.deps[i].iter().map(|d| tid(*d)).collect(),
             bh(pr.sched[i]),
             bh(pr.expiry[i]),
@@ -385,6 +386,12 @@ pub enum Op {
     Cancel,
     Supersede,
     ApplySignature(u8),
+    /// A proof for a row that is already Proved is stored again (`store_proved_transaction` with a
+    /// second `ProvedTransaction` for the same row): a second prover that was started from a state
+    /// in which the row was still Signed (the prove functions refuse any other state) finishes late,
+    /// e.g. after a slow first prover was given up on and the Prove step was served again. Neither
+    /// `store_proved_transaction` nor `ProvedTransaction::apply` restricts the row's state.
+    ReProve(u8),
 }
 
 pub struct Viol {
@@ -707,6 +714,11 @@ impl<'a> Model<'a> {
                 out.push(Op::ApplySignature(i as u8));
             }
         }
+        for i in 0..N {
+            if matches!(txs[i].state(), MigrationTxState::Proved) {
+                out.push(Op::ReProve(i as u8));
+            }
+        }
     }
 
     /// The successor of `l` under `op`, with every transition invariant checked.
@@ -765,6 +777,10 @@ impl<'a> Model<'a> {
                     }
                     (s, r) => return Err(Viol::new("machinery", format!("response {r:?} does not fit step {s:?}"))),
                 }
+                // Storing proofs touches the bytes, the lifecycle state and the lock owner only.
+                if matches!(resp, Resp::ProveAll | Resp::ProveFirst) {
+                    check_determinations_kept(&out.ms, &state, "ProofStored")?;
+                }
                 state
             }
             Op::RecordLate(i) => {
@@ -816,6 +832,21 @@ impl<'a> Model<'a> {
             Op::Supersede => {
                 let mut state = pre.clone();
                 catch(|| state.mark_superseded()).map_err(|p| Viol::new("panic:mark_superseded", p))?;
+                state
+            }
+            Op::ReProve(i) => {
+                let i = *i as usize;
+                if !matches!(pre.transactions()[i].state(), MigrationTxState::Proved) {
+                    return Err(Viol::new("machinery", "ReProve on a row that is not Proved"));
+                }
+                let mut state = pre.clone();
+                let mut store = Scripted::new(Some(state.clone()), env.tip, vec![], Oracle::AllOk);
+                let proven = ProvedTransaction::from_parts(tid(i), pczt_bytes(2, i));
+                catch(|| store.store_proved_transaction(&mut state, proven)).map_err(|p| Viol::new("panic:store_proved_transaction", p))?.unwrap_or_else(|e| match e {});
+                if store.stored.as_ref() != Some(&state) {
+                    return Err(Viol::new("persist:store_proved-left-store-behind", "store_proved_transaction did not persist the state it returned"));
+                }
+                self.outcome(if pre.transactions()[i].broadcast_failure_at().is_some() { "consumer:proof-stored-again-under-report" } else { "consumer:proof-stored-again" });
                 state
             }
             Op::ApplySignature(i) => {
@@ -1153,6 +1184,30 @@ pub fn check_step(ms: &MigrationState, step: &AdvanceStep, targets: DuenessTarge
     Ok(())
 }
 
+/// The event `opname` must not have changed any transaction's failure report or mark.
+pub fn check_determinations_kept(pre: &MigrationState, post: &MigrationState, opname: &str) -> Result<(), Viol> {
+    for (a, b) in pre.transactions().iter().zip(post.transactions()) {
+        if a.broadcast_failure_at() != b.broadcast_failure_at() {
+            return Err(Viol::new(
+                format!("offer:failure-report-withdrawn-by:{opname}"),
+                format!(
+                    "{opname} changed the broadcast-failure report of transaction {} from {:?} to {:?}: a standing report (the 'no failure report' guard of the broadcast offer, the hold at Reevaluate) is withdrawn only by advance_migration's adjudication against the oracle, by mining, or by a rollback",
+                    u32::from(a.id()),
+                    a.broadcast_failure_at(),
+                    b.broadcast_failure_at()
+                ),
+            ));
+        }
+        if a.unsatisfiable() != b.unsatisfiable() {
+            return Err(Viol::new(
+                format!("offer:mark-changed-by:{opname}"),
+                format!("{opname} changed the unsatisfiability mark of transaction {} from {:?} to {:?}", u32::from(a.id()), a.unsatisfiable(), b.unsatisfiable()),
+            ));
+        }
+    }
+    Ok(())
+}
+
 /// Lifecycle invariants between the state before and after one event.
 pub fn check_lifecycle(pre: &MigrationState, post: &MigrationState, op: &Op, rolled_to: Option<u32>) -> Result<(), Viol> {
     let opname = match op {
@@ -1164,8 +1219,15 @@ pub fn check_lifecycle(pre: &MigrationState, post: &MigrationState, op: &Op, rol
         Op::Cancel => "Cancel",
         Op::Supersede => "Supersede",
         Op::ApplySignature(_) => "ApplySignature",
+        Op::ReProve(_) => "ProofStoredAgain",
         Op::Init(_) => "Init",
     };
+    // A standing broadcast-failure report is withdrawn only by advance_migration's adjudication,
+    // by mining, or by a rollback below the reported tip; an unsatisfiability mark only by mining
+    // or a rollback. Every other event leaves both alone.
+    if !matches!(op, Op::Advance { .. } | Op::Rollback(_)) {
+        check_determinations_kept(pre, post, opname)?;
+    }
     if pre.transactions().len() != post.transactions().len() {
         return Err(Viol::new(format!("lifecycle:tx-set-changed:{opname}"), "the set of transactions changed"));
     }
